@@ -1,51 +1,55 @@
 (* C06 - bitmap decoding reproduces every source pixel for a standard BMP reader.
    Statements only; proofs in Proofs/BitdFacts.v.  PROVED here: the 8-bit compressed decoder for every
    valid scan-line PackBits encoding (rows given as token lists: any cut into literals of 1..128 bytes
-   and runs of 2..129 copies), under the geometry condition "stored row fits the BMP stride";
-   the header fields a BMP reader uses.  NOT proved (model + correspondence + direct oracle only):
-   raw rows, 1-, 16- and 32-bit decoders; see the open known findings of C06. *)
-From Coq Require Import List ZArith.
+   and runs of 2..129 copies), without geometry condition since the repair of the pad-byte / pad-bit findings;
+   the header fields a BMP reader uses; the raw 8-bit and 1-bit row loops and the compressed 1-bit decoder (same
+   token lists, 8 pixels per byte) for images of any size; and, at the level of the property's wording, what a
+   standard BMP reader (offset field, width / height / bits-per-pixel fields, 4-byte aligned stride, bottom-up rows)
+   sees in the whole file written for an 8-bit or 1-bit image: the source pixel inside the image area, background
+   elsewhere (C06_bmp*_reader).  NOT proved (model + correspondence + direct oracle only): the 16- and 32-bit
+   decoders; see the open known findings of C06. *)
+From Coq Require Import List ZArith Lia.
 From Coq.Strings Require Import Byte.
-From DRX Require Import Py.PyBytes Model.Riff Model.Clut Model.Bitd Proofs.BitdFacts.
+From DRX Require Import Py.PyBytes Model.Riff Model.Clut Model.Bitd Proofs.BitdFacts Proofs.BitdRawFacts Proofs.Bitd1Facts Proofs.BmpReadFacts.
 Import ListNotations.
 Open Scope Z_scope.
 
-(* every source pixel at (w_padding, h_padding), background elsewhere, bottom-up rows of [stride4 bw] bytes *)
+(* every source pixel at (w_padding, h_padding), background elsewhere, bottom-up rows of [stride4 bw] bytes; the pad byte
+   of a stored row of odd width is not painted; [extra8]: trailing bytes the decoder appends when the stored row is
+   wider than the stride (pinned by fixtures, after the area a reader looks at) *)
 Theorem C06_compressed8_pixels : forall bw bh pw ph rows,
   let w := bw - pw in let W := w + w mod 2 in let width := stride4 bw in
   0 <= pw -> 0 < w -> 0 <= ph -> zlen rows = bh - ph ->
-  pw + W <= width ->
   Forall (wf_row W) rows ->
   decode_compressed8 (concat (map enc_toks rows)) bw bh pw ph width
-  = Ok (concat (map (fun ts => canvas_row pw W width (dec_toks ts)) (rev rows)) ++ zerosZ (width * ph)).
+  = Ok (concat (map (fun ts => raw_canvas8 pw w width (dec_toks ts)) (rev rows)) ++ zerosZ (width * ph) ++ zerosZ (extra8 bw bh pw)).
 Proof. exact compressed8_pixels. Qed.
 
 (* two different valid encodings of one image yield identical pixel arrays *)
 Theorem C06_compressed8_encoding_independent : forall bw bh pw ph rows1 rows2,
   let w := bw - pw in let W := w + w mod 2 in let width := stride4 bw in
-  0 <= pw -> 0 < w -> 0 <= ph -> zlen rows1 = bh - ph -> zlen rows2 = bh - ph -> pw + W <= width ->
+  0 <= pw -> 0 < w -> 0 <= ph -> zlen rows1 = bh - ph -> zlen rows2 = bh - ph ->
   Forall (wf_row W) rows1 -> Forall (wf_row W) rows2 ->
   map dec_toks rows1 = map dec_toks rows2 ->
   decode_compressed8 (concat (map enc_toks rows1)) bw bh pw ph width
   = decode_compressed8 (concat (map enc_toks rows2)) bw bh pw ph width.
 Proof. exact compressed8_encoding_independent. Qed.
 
-(* the full statement without the geometry condition is false on the faithful model (open finding C06-8bit-pad-leak) *)
-Theorem C06_compressed8_leak_refuted :
+(* the geometry of the former finding C06-8bit-pad-leak (repaired in /repo): the pad byte 0x55 is not painted *)
+Theorem C06_compressed8_former_leak :
   exists data, decode_compressed8 (concat (map enc_toks leak_rows)) 4 2 1 0 (stride4 4) = Ok data /\
-               nth 4 data x00 = x55 /\
-               firstn 8 data <> canvas_row 1 3 4 [x04; x05; x06] ++ canvas_row 1 3 4 [x01; x02; x03].
-Proof. exact compressed8_leak_witness. Qed.
+               firstn 8 data = canvas_row 1 3 4 [x04; x05; x06] ++ canvas_row 1 3 4 [x01; x02; x03].
+Proof. exact compressed8_former_leak. Qed.
 
-(* token level: a run paints n equal values, a literal copies its bytes, over any cells of the row *)
-Theorem C06_run_paints : forall n a seg b x y w width pw v,
-  length seg = n -> zlen a = y * width + x + pw -> x + Z.of_nat n <= w ->
-  put_run8 n (a ++ seg ++ b) x y w width pw v = Ok (a ++ repeat v n ++ b, x + Z.of_nat n).
+(* token level: a run paints n equal values, a literal copies its bytes, over the cells inside the image *)
+Theorem C06_run_paints : forall n a seg b x y w iw width pw v,
+  length seg = length (vis iw x (repeat v n)) -> (x < iw -> zlen a = y * width + x + pw) -> x + Z.of_nat n <= w ->
+  put_run8 n (a ++ seg ++ b) x y w iw width pw v = Ok (a ++ vis iw x (repeat v n) ++ b, x + Z.of_nat n).
 Proof. exact put_run8_paints. Qed.
-Theorem C06_literal_paints : forall l fp fs a seg b x y w width pw,
-  length seg = length l -> zlen a = y * width + x + pw -> x + zlen l <= w ->
-  put_lit8 (length l) (fp ++ l ++ fs) (a ++ seg ++ b) x y w width pw (zlen fp)
-  = Ok (a ++ l ++ b, x + zlen l, zlen fp + zlen l).
+Theorem C06_literal_paints : forall l fp fs a seg b x y w iw width pw,
+  length seg = length (vis iw x l) -> (x < iw -> zlen a = y * width + x + pw) -> x + zlen l <= w ->
+  put_lit8 (length l) (fp ++ l ++ fs) (a ++ seg ++ b) x y w iw width pw (zlen fp)
+  = Ok (a ++ vis iw x l ++ b, x + zlen l, zlen fp + zlen l).
 Proof. exact put_lit8_paints. Qed.
 
 (* what a BMP reader looks at: signature, data offset, width, height, bits per pixel; 4-byte aligned stride *)
@@ -61,6 +65,123 @@ Theorem C06_info_fields : forall w h bpp nc pre rest, zlen pre = 14 ->
   slice (pre ++ bmp_info_header w h bpp nc ++ rest) 28 30 = pack 2 Little bpp.
 Proof. exact bmp_info_fields. Qed.
 
+(* ---- raw rows (any image size): the first w bytes / bits of every stored row at (w_padding, h_padding) ---- *)
+Theorem C06_raw8_pixels : forall bw bh pw ph W rows,
+  let w := bw - pw in let width := stride4 bw in
+  0 <= pw -> 0 < w -> w <= W -> 0 <= ph -> zlen rows = bh - ph -> Forall (fun r => zlen r = W) rows ->
+  decode_raw8 (concat rows) bw bh pw ph width W
+  = Ok (concat (map (raw_canvas8 pw w width) (rev rows)) ++ zerosZ (width * ph)).
+Proof. exact raw8_pixels. Qed.
+Theorem C06_raw1_pixels : forall bw bh pw ph W rows,
+  let w := bw - pw in let width := stride4 bw in
+  0 <= pw -> 0 < w -> (w + 7) / 8 <= W -> 0 <= ph -> zlen rows = bh - ph -> Forall (fun r => zlen r = W) rows ->
+  decode_raw1 (concat rows) bw bh pw ph width W
+  = Ok (concat (map (raw_canvas1 pw w width) (rev rows)) ++ zerosZ (width * ph)).
+Proof. exact raw1_pixels. Qed.
+
+(* ---- compressed 1 bit: every segmentation of rows of width16 w / 8 bytes; the pad bits are not painted ---- *)
+Theorem C06_compressed1_pixels : forall bw bh pw ph rows,
+  let w := bw - pw in let W := width16 w in let width := stride4 bw in
+  0 <= pw -> 0 < w -> 0 <= ph -> zlen rows = bh - ph -> Forall (wf_row (W / 8)) rows ->
+  decode_compressed1 (concat (map enc_toks rows)) bw bh pw ph width
+  = Ok (concat (map (canvas1 pw w width) (rev rows)) ++ zerosZ (width * ph)).
+Proof. exact compressed1_pixels. Qed.
+Theorem C06_compressed1_encoding_independent : forall bw bh pw ph rows1 rows2,
+  let w := bw - pw in let W := width16 w in let width := stride4 bw in
+  0 <= pw -> 0 < w -> 0 <= ph -> zlen rows1 = bh - ph -> zlen rows2 = bh - ph ->
+  Forall (wf_row (W / 8)) rows1 -> Forall (wf_row (W / 8)) rows2 ->
+  map dec_toks rows1 = map dec_toks rows2 ->
+  decode_compressed1 (concat (map enc_toks rows1)) bw bh pw ph width
+  = decode_compressed1 (concat (map enc_toks rows2)) bw bh pw ph width.
+Proof. exact compressed1_encoding_independent. Qed.
+(* raw and compressed storage of the same rows give the same pixel array (1 bit; 8 bit up to the trailing extra8 bytes) *)
+Theorem C06_raw_equals_compressed1 : forall bw bh pw ph rows,
+  let w := bw - pw in let W := width16 w in let width := stride4 bw in
+  0 <= pw -> 0 < w -> 0 <= ph -> zlen rows = bh - ph -> Forall (wf_row (W / 8)) rows ->
+  decode_compressed1 (concat (map enc_toks rows)) bw bh pw ph width
+  = decode_raw1 (concat (map dec_toks rows)) bw bh pw ph width (W / 8).
+Proof.
+  intros bw bh pw ph rows. cbv zeta. intros Hpw Hw Hph Hrows Hwf.
+  rewrite (compressed1_pixels bw bh pw ph rows) by assumption.
+  pose proof (width16_spec (bw - pw) ltac:(lia)) as [_ HWr]. pose proof (width16_bytes (bw - pw) ltac:(lia)) as HW8.
+  rewrite (raw1_pixels bw bh pw ph (width16 (bw - pw) / 8) (map dec_toks rows)); try assumption.
+  - rewrite <- map_rev, map_map. reflexivity.
+  - assert ((bw - pw + 7) / 8 < width16 (bw - pw) / 8 + 1) by (apply Z.div_lt_upper_bound; lia). lia.
+  - unfold zlen in *. rewrite map_length. exact Hrows.
+  - apply Forall_forall. intros r Hin. apply in_map_iff in Hin. destruct Hin as (ts & <- & Hin).
+    rewrite Forall_forall in Hwf. apply (Hwf ts Hin).
+Qed.
+
+(* ---- the property as worded: a standard BMP reader applied to the whole file ---- *)
+(* bmp_read: offset from the file header, width / height / bpp from the info header, stride ((w*bpp+31)/32)*4,
+   rows bottom-up; want: the source pixel inside the image area, background elsewhere (y counted from the top) *)
+Theorem C06_bmp8_compressed_reader : forall bw bh pw ph rows pname pdata pal,
+  let w := bw - pw in let W := w + w mod 2 in let enc := concat (map enc_toks rows) in
+  0 <= pw -> 0 < w -> 0 <= ph -> zlen rows = bh - ph -> Forall (wf_row W) rows ->
+  bw < 2 ^ 31 -> bh < 2 ^ 31 -> bw * bh + 1078 < 2 ^ 31 -> pal_ok 8 256 pname pdata pal ->
+  zlen enc <> W * (bh - ph) ->
+  exists bmp, decode8 enc bw bh pw ph pname pdata = Ok bmp /\
+    forall x y, 0 <= x < bw -> 0 <= y < bh -> bmp_read bmp x y = Some (want dec_toks [] rows pw ph w x y).
+Proof. exact bmp8_compressed_reader. Qed.
+Theorem C06_bmp8_raw_reader : forall bw bh pw ph rows pname pdata pal,
+  let w := bw - pw in let W := w + w mod 2 in
+  0 <= pw -> 0 < w -> 0 <= ph -> zlen rows = bh - ph -> Forall (fun r => zlen r = W) rows ->
+  bw < 2 ^ 31 -> bh < 2 ^ 31 -> bw * bh + 1078 < 2 ^ 31 -> pal_ok 8 256 pname pdata pal ->
+  exists bmp, decode8 (concat rows) bw bh pw ph pname pdata = Ok bmp /\
+    forall x y, 0 <= x < bw -> 0 <= y < bh -> bmp_read bmp x y = Some (want (fun r => r) [] rows pw ph w x y).
+Proof. exact bmp8_raw_reader. Qed.
+Theorem C06_bmp1_compressed_reader : forall bw bh pw ph rows pname pdata pal,
+  let w := bw - pw in let W := width16 w in let enc := concat (map enc_toks rows) in
+  0 <= pw -> 0 < w -> 0 <= ph -> zlen rows = bh - ph -> Forall (wf_row (W / 8)) rows ->
+  bw < 2 ^ 31 -> bh < 2 ^ 31 -> bw * bh + 62 < 2 ^ 31 -> pal_ok 1 2 pname pdata pal ->
+  zlen enc <> w_size1 w * (bh - ph) ->
+  exists bmp, decode1 enc bw bh pw ph pname pdata = Ok bmp /\
+    forall x y, 0 <= x < bw -> 0 <= y < bh ->
+    bmp_read bmp x y = Some (want (fun ts => bits_of (dec_toks ts)) [] rows pw ph w x y).
+Proof. exact bmp1_compressed_reader. Qed.
+Theorem C06_bmp1_raw_reader : forall bw bh pw ph rows pname pdata pal,
+  let w := bw - pw in let W := w_size1 w in
+  0 <= pw -> 0 < w -> 0 <= ph -> zlen rows = bh - ph -> Forall (fun r => zlen r = W) rows ->
+  bw < 2 ^ 31 -> bh < 2 ^ 31 -> bw * bh + 62 < 2 ^ 31 -> pal_ok 1 2 pname pdata pal ->
+  exists bmp, decode1 (concat rows) bw bh pw ph pname pdata = Ok bmp /\
+    forall x y, 0 <= x < bw -> 0 <= y < bh -> bmp_read bmp x y = Some (want bits_of [] rows pw ph w x y).
+Proof. exact bmp1_raw_reader. Qed.
+
+(* non-vacuity of the reader theorems: the premises hold for a 3x2 image at offset (1,1) on a 5x3 canvas with the
+   default palettes, and the reader sees the expected pixels in the file the model writes *)
+Definition ex_rows8 : list (list tok) := [[TRun 2 x07; TLit [x09; x00]]; [TLit [x01]; TRun 3 x00]].
+Example C06_reader_premises8 :
+  Forall (wf_row 4) ex_rows8 /\ (exists pal, pal_ok 8 256 [] [] pal) /\
+  zlen (concat (map enc_toks ex_rows8)) <> 4 * 2.
+Proof.
+  split; [repeat constructor; cbn; try lia; discriminate|]. split; [|vm_compute; discriminate].
+  destruct (write_color_palette 8 256 [] []) as [p| |] eqn:E; [|vm_compute in E; discriminate E..].
+  exists p. split; [exact E|]. vm_compute in E. injection E as <-. reflexivity.
+Qed.
+Example C06_reader_example8 :
+  match decode8 (concat (map enc_toks ex_rows8)) 4 3 1 1 [] [] with
+  | Ok bmp => map (fun y => map (fun x => bmp_read bmp x y) [0; 1; 2; 3]) [0; 1; 2]
+              = [[Some x00; Some x00; Some x00; Some x00];
+                 [Some x00; Some x07; Some x07; Some x09];
+                 [Some x00; Some x01; Some x00; Some x00]]
+  | _ => False
+  end.
+Proof. vm_compute. reflexivity. Qed.
+Example C06_reader_premises1 : exists pal, pal_ok 1 2 s_bw [] pal.
+Proof.
+  destruct (write_color_palette 1 2 s_bw []) as [p| |] eqn:E; [|vm_compute in E; discriminate E..].
+  exists p. split; [exact E|]. vm_compute in E. injection E as <-. reflexivity.
+Qed.
+Example C06_reader_example1 :
+  match decode1 [xa0; x00; x40; x00] 4 3 1 1 s_bw [] with      (* raw 1-bit rows 101 / 010, two bytes per row *)
+  | Ok bmp => map (fun y => map (fun x => bmp_read bmp x y) [0; 1; 2; 3]) [0; 1; 2]
+              = [[Some x00; Some x00; Some x00; Some x00];
+                 [Some x00; Some x01; Some x00; Some x01];
+                 [Some x00; Some x00; Some x01; Some x00]]
+  | _ => False
+  end.
+Proof. vm_compute. reflexivity. Qed.
+
 (* non-vacuity: two segmentations of a 3x2 image at offset (1,1) on a 4x3 canvas decode to the same array *)
 Example C06_example :
   let r1 := [[TRun 2 x07; TLit [x09; x00]]; [TLit [x01]; TRun 3 x00]] in
@@ -72,9 +193,18 @@ Proof. vm_compute. repeat split; reflexivity. Qed.
 
 Print Assumptions C06_compressed8_pixels.
 Print Assumptions C06_compressed8_encoding_independent.
-Print Assumptions C06_compressed8_leak_refuted.
+Print Assumptions C06_compressed8_former_leak.
+Print Assumptions C06_raw_equals_compressed1.
 Print Assumptions C06_run_paints.
 Print Assumptions C06_literal_paints.
 Print Assumptions C06_stride.
 Print Assumptions C06_header_fields.
 Print Assumptions C06_info_fields.
+Print Assumptions C06_raw8_pixels.
+Print Assumptions C06_raw1_pixels.
+Print Assumptions C06_compressed1_pixels.
+Print Assumptions C06_compressed1_encoding_independent.
+Print Assumptions C06_bmp8_compressed_reader.
+Print Assumptions C06_bmp8_raw_reader.
+Print Assumptions C06_bmp1_compressed_reader.
+Print Assumptions C06_bmp1_raw_reader.
